@@ -137,7 +137,7 @@ def cases(tier, rng):
 def nontrivial(case, out):
     return 'SFired' in out
 
-STAGES = [dict(name='consumption', mode='app', coq='Check.C05w', cases=cases, nontrivial=nontrivial, shard=15,
+STAGES = [dict(name='consumption', mode='app', coq='Check.C05w', profile=('Proofs.JudgeC05P', 'JudgeC05P.profile_C05b', 'C05_app_judgement_sound / C05_app_judgement_transfer'), cases=cases, nontrivial=nontrivial, shard=15,
                exhaustive={'thorough': True, 'quick': True},
                rule='a consuming (or non-consuming) action on each of 9 inputs (Ctrl+K, K, Ctrl+mouse button, motion, Shift+wheel, gamepad button, gamepad axis, Ctrl+Shift+K, Shift+Alt+mouse button) whose scripted final state is Fired / Ongoing / None / mixed, '
                     'followed - in the same context or in a lower-priority one, with equal or different gamepad settings - by probed bindings of all 22 relation classes (incl. bindings requiring a superset / subset / overlap of the consumed modifier keys) (same key, same key other modifiers, '
